@@ -62,9 +62,9 @@ def run(prop, tier, seed, replay=None):
     V.assumptions = [
         "coefficient-field operations (Modular<int32_t>, Modular<Integer>, QField<Rational>) are modelled as exact field arithmetic (Z/p, Q): their own correctness is C03/C10",
         "the threshold used by the model for the SQR_THRESHOLD dispatch is the KARA_THRESHOLD printed by the harness (equal in the source and in both builds); the theorems hold for every threshold >= 1, so a difference would not be observable",
-        "the Karatsuba middle product (karamidStep) and the two unbalanced block loops of the generic midmul are modelled line by line and compared with the implementation at thresholds 50 and 2 (public and range forms), but proved only where the dispatch selects the schoolbook middle product (stdmidmul_exact, midmul_exact_partial); their exactness is otherwise decided per generated case by the reference product",
-        "interpolation (Interpolation, NewtonInterpGeom over GFqDom<int64_t>(p,1)) and Poly1CRT are not modelled: they are decided per generated case through their defining identities with the verified reference evaluation; the p-adic conversion is modelled on canonical residues (logp of gmp++ and dom_power of givpower.h by value only)",
-        "constructors/assignments, the remaining observers, scalar remainder, inverse, shiftin and the givpoly1dense.h wrappers are compared with the reference arithmetic only (no model); the protected range forms are called through a derived class",
+        "the fuel of the recursive model functions (mulR, sqrR, midR: |P|+|Q|) only bounds the recursion of the Lean definition; the theorems hold for every fuel, and that the bound is never reached before the threshold dispatch is observed by the comparison with the implementation (thresholds 50 and 2), not proved",
+        "Interpolation<Domain> (givinterp.h) is modelled line by line (Points and DD stored most recent first; the divided-difference loop stops at the end of DD or Points, which have equal length by construction) and proved (interp_exact); Poly1CRT is modelled (Model/PolyCRT.lean: ComputeCk and RnsToRing run side by side, since the reciprocals do not depend on the residues; ck[Size] is not used) and proved (crt_exact); NewtonInterpGeom over GFqDom<int64_t>(p,1) is not modelled: it is decided per generated case by comparison with the interpolated polynomial (interp_unique); the p-adic conversion is modelled on canonical residues (logp of gmp++ and dom_power of givpower.h by value only); evaldirect / radixdirect are exercised with uint64_t values below 2^63 (machine wrap-around of larger values is outside the model), the double overloads (fastradixdirect, radixdirect(double)) are not exercised",
+        "constructors/assignments, the remaining observers (isMOne, isUnit, areNEqual, val), setEntry, shiftin, the scalar/polynomial mixed quotient and remainder, scalar remainder and inv are modelled in Model/PolyMore.lean, proved (observers_any_storage, val_exact, setEntry_exact, shiftin_exact, cstor_exact, scalar_poly_mixed_exact, inv_exact) and compared; random/nonzerorandom: only the shape (size, degree, non-zero leading coefficient) is modelled and checked (random_shape), the draws are C17's; the givpoly1dense.h wrappers (characteristic, cardinality, getdomain) are compared with the reference only; the protected range forms are called through a derived class",
         "not instantiable with std::vector storage (compile errors inside the library, hence not exercised; not violations): maxpy(r, scalar, b, c) (calls r.copy), shift (calls R.shiftin); NewtonInterpGeom is only instantiable over fields with generator() (GFqDom)",
         "the in-place call forms al_* of the scalar/polynomial overloads are checked against the same contract as the out-of-place forms (aliasing in general is C15)",
         "sdivmod/sxgcd of the specification only *find* certificates that are re-checked by multiplication; smod is used unchecked as the reference for powmod and invmodunit",
